@@ -35,6 +35,8 @@ MANIFEST_ENTRY = {
 
 
 def replay(o):
+    if o.get("replay_inline"):
+        return o["replay_inline"]
     from pyvc.concrete import replay_scenario
 
     return replay_scenario(o)
